@@ -7,7 +7,7 @@ mkdir -p work evidence
 python3 tools/gen_consts.py || true
 ( cd coq && coq_makefile -f _CoqProject $(find theories -name '*.v' | sort) -o Makefile >/dev/null 2>&1 )
 # keep going past a broken file so that every property whose proofs still check can be decided
-( cd coq && timeout 3000 make -k -j16 >/verif/work/coq_build.log 2>&1 ) || { mkdir -p work; echo "coq build had errors (see work/coq_build.log)"; }
+( cd coq && timeout 3000 make -k -j16 >../work/coq_build.log 2>&1 ) || { mkdir -p work; echo "coq build had errors (see work/coq_build.log)"; }
 cp -f /repo/rust/Cargo.lock harness/Cargo.lock
 ( cd harness && RUSTFLAGS="--cfg automerge_verif" cargo build --offline 2>&1 | tail -3 )
 echo setup done
